@@ -143,7 +143,15 @@ func Helpers(seed uint64, n int) *Out {
 			nops += len(script)
 		}
 		derived := []int{}
+		// schemas are executed between the operations too (anything an execution leaves behind in a
+		// schema must not be inherited by, or withheld from, what is derived from it later)
+		execEarly := r.P(40)
+		nexec := 0
 		for k := 0; k < nops; k++ {
+			if execEarly && r.P(40) {
+				w.observe(schemas[r.Intn(len(schemas))])
+				nexec++
+			}
 			i := r.Intn(len(schemas))
 			choice := r.Intn(9)
 			if k < len(script) {
@@ -274,7 +282,7 @@ func Helpers(seed uint64, n int) *Out {
 			}
 			obs = append(obs, fmt.Sprintf("(KO [%s] [%s] [%s])", strings.Join(xs, "; "), strings.Join(ts, "; "), strings.Join(ps, "; ")))
 		}
-		o.Add(fmt.Sprintf("ops=%d", len(ops)), strings.Join(ops, ";"), fmt.Sprintf("(KC $ID [%s] [%s])", strings.Join(ops, "; "), strings.Join(obs, "; ")))
+		o.Add(fmt.Sprintf("ops=%d execs_between=%v", len(ops), nexec > 0), strings.Join(ops, ";"), fmt.Sprintf("(KC $ID [%s] [%s])", strings.Join(ops, "; "), strings.Join(obs, "; ")))
 	}
 	return o
 }
